@@ -4,6 +4,7 @@ import json, os, sys
 ROOT = os.path.dirname(os.path.dirname(os.path.abspath(__file__)))
 sys.path.insert(0, ROOT)
 from vf.gen.grammar import PREAMBLE
+from vf.gen.typed import HEADER as TY_HEADER
 
 def c01(body, inputs, mode='to_graph', feats=()):
   return {'src': PREAMBLE + body, 'inputs': inputs, 'mode': mode, 'feats': list(feats)}
@@ -261,9 +262,97 @@ FIXED = [
         return fn3
     return fn2
 '''}),
+ ('C19', 'stale-annotation-after-operand-becomes-unknown', '852654d',
+  "an expression kept the TYPES annotation of the first pass of the fixed-point iteration after a later pass found an operand unknown (bool + float annotated {float}, evaluated to int)",
+  {'src': TY_HEADER + '''
+def f(a, b, x, s, flag, xs, tp, n):
+    def g1(p):
+        return p
+    v3 = flag
+    v4 = x
+    for i1 in [1, 2]:
+        v0 = (v3 + v4)
+        v3 = g1(1)
+        v4 = 1
+    return (v3,)
+''', 'mode': 'hostile'}),
+ ('C19', 'nonlocal-entry-types-missing', '2be8705',
+  "in a local function, a name declared nonlocal and rebound on one path only was annotated with the new type alone after the join; the entry state skipped the types recorded by the enclosing function",
+  {'src': TY_HEADER + '''
+def f(a, b, x, s, flag, xs, tp, n):
+    v2 = 1.5
+    def g1(p):
+        nonlocal v2
+        if p > 1:
+            v2 = 7
+        w0 = v2
+        return w0
+    u0 = g1(0)
+    return (u0, v2)
+''', 'mode': 'hostile'}),
+ ('C19', 'tuple-display-stops-at-first-unknown-element', '6f3fdc4',
+  "visit_Tuple returned at the first element of unknown type; the remaining elements were not visited on that pass and kept the annotations of an earlier pass",
+  {'src': TY_HEADER + '''
+def f(a, b, x, s, flag, xs, tp, n):
+    v0 = b
+    v1 = xs
+    def g1(p):
+        return p
+    if flag:
+        v1 = 1
+        v0 = g1(a)
+    u1 = (1 - v0)
+    return (u1, v1)
+''', 'mode': 'hostile'}),
+ ('C19', 'unpacking-targets-keep-annotation-of-earlier-pass', 'cd75b77',
+  "the targets of a tuple unpacking kept the TYPES annotation of an earlier pass of the fixed-point iteration when the unpacked value became unknown on a later pass (_apply_unpacking did not visit them)",
+  {'src': TY_HEADER + '''
+def f(a, b, x, s, flag, xs, tp, n):
+    def g1(p):
+        return p
+    v0 = x
+    for i1 in [1, 2]:
+        v0, v3 = ((v0 // 2), 1)
+        v0 = g1(1)
+    return (v3,)
+''', 'mode': 'hostile'}),
 ]
 
 OPEN = [
+ {'property': 'C19', 'key': 'binding-of-unknown-type-keeps-previous-type', 'status': 'open',
+  'what': "a binding whose type the inference does not know (aug-assignment, for-loop target, assignment or unpacking of a value the "
+          "resolver reports as unknown) leaves the entry the symbol had before in the type map, so later reads are annotated with the type of "
+          "an older binding: a wrong set instead of nothing. Not repaired: the type map has no element for 'unknown' (an absent key also means "
+          "'not assigned yet' and joins are unions over present keys), so a sound repair changes the lattice and the join of the "
+          "analysis, which is more than a local patch.",
+  'witness': {'src': TY_HEADER + '''
+def f(a, b, x, s, flag, xs, tp, n):
+    v0 = 1
+    v0 += 0.5
+    v1 = 'a'
+    for v1 in [1, 2]:
+        u0 = v1
+    v2 = 1
+    v2 = ext_u('q')
+    return (v0, v1, v2)
+''', 'mode': 'hostile'}},
+ {'property': 'C19', 'key': 'rebinding-by-local-function-not-applied-to-caller', 'status': 'open',
+  'what': "a local function that rebinds a variable of the enclosing function through nonlocal with another type: after the call the "
+          "enclosing function still annotates reads of the variable with the old type, and the CLOSURE_TYPES recorded for later calls "
+          "lack the new type. Side effects are only taken from Resolver.res_call, which is consulted for external functions; calls to "
+          "local functions go through _resolve_typed_callable, which returns no side effects. Not repaired: needs the set of types each "
+          "local function may leave in each nonlocal (an inter-procedural summary iterated to a fixed point together with the callers).",
+  'witness': {'src': TY_HEADER + '''
+def f(a, b, x, s, flag, xs, tp, n):
+    v0 = 1
+    def g1(p):
+        nonlocal v0
+        v0 = 'a'
+        return p
+    u0 = g1(1)
+    g1(2)
+    return (v0, u0)
+''', 'mode': 'hostile'}},
  {'property': 'C06', 'key': 'definitions-do-not-cross-function-boundaries', 'status': 'open',
   'what': "definitions do not flow between a function and the functions nested in it: a read of an enclosing variable inside a nested "
           "function has an empty DEFINITIONS annotation, and a rebinding made by a nested function through nonlocal is not among the "
